@@ -743,6 +743,16 @@ func (e *verifEnv) ResetVolatile() {
 		delete(e.State.totpLocalRateLimit, k)
 	}
 	e.State.totpLocalTateLimitMutex.Unlock()
+	// the per-user profile versions live in memory only: after a restart every stored profile is at version 0
+	// (looked up by name: the harness must build whatever the tree calls or lacks them)
+	sv := reflect.ValueOf(e.State).Elem()
+	if f, m := sv.FieldByName("profileVersion"), sv.FieldByName("profileVersionMutex"); f.IsValid() && f.Kind() == reflect.Map && m.IsValid() {
+		if mu, ok := reflect.NewAt(m.Type(), unsafe.Pointer(m.UnsafeAddr())).Interface().(sync.Locker); ok {
+			mu.Lock()
+			reflect.NewAt(f.Type(), unsafe.Pointer(f.UnsafeAddr())).Elem().Set(reflect.MakeMap(f.Type()))
+			mu.Unlock()
+		}
+	}
 }
 
 // WatchSignerReady mirrors main(): one goroutine receives from SignerIsReady.
